@@ -79,6 +79,25 @@ def join_stmts(items):
     return out_t, out_a
 
 
+def untyped_i32_text(ast):
+    """text of a literal aggregate (arrays, repeats, tuples of numbers and Booleans) whose numbers are all i32,
+    written without suffixes; None for anything else"""
+    k = ast[0]
+    if k == "int":
+        return str(ast[1]) if ast[2] == "i32" else None
+    if k == "bool":
+        return "true" if ast[1] else "false"
+    if k in ("array", "tuple"):
+        parts = [untyped_i32_text(x) for x in ast[1]]
+        if not parts or any(p is None for p in parts) or (k == "tuple" and len(parts) == 1):
+            return None
+        return ("[" + ", ".join(parts) + "]") if k == "array" else ("(" + ", ".join(parts) + ")")
+    if k == "repeat":
+        p = untyped_i32_text(ast[1])
+        return None if p is None else f"[{p}; {ast[2]}]"
+    return None
+
+
 class ProgGen:
     def __init__(self, rng, max_depth=3, allow_panics=True, features=None):
         self.rng = rng
@@ -87,7 +106,7 @@ class ProgGen:
         self.scope = []          # dicts {name, ty, mut}
         self.counter = 0
         self.helpers = []        # {"name", "params", "ret", "text", "ast"}
-        self.features = features or {"match", "loops", "helpers", "structs", "assign", "impure", "shadow"}
+        self.features = features or {"match", "loops", "helpers", "structs", "assign", "impure", "shadow", "untyped"}
         self.shadow_p = 0.15 if "shadow" in self.features else 0.0
         self.stats = {}
 
@@ -135,6 +154,14 @@ class ProgGen:
         return out
 
     # ------------------------------------------------------------------ literals
+    def maybe_untyped(self, e, p=0.4):
+        """a number literal in a position whose type is fixed by its context may be written without its suffix"""
+        if "untyped" in self.features and isinstance(e.ast, list) and e.ast[0] == "int" and e.text == f"{e.ast[1]}{e.ast[2]}" \
+                and self.rng.random() < p:
+            self.note("untyped-literal")
+            return E(str(e.ast[1]), e.ast)
+        return e
+
     def val_expr(self, ty, v):
         k = ty["k"]
         if k == "bool":
@@ -158,12 +185,14 @@ class ProgGen:
         return self.enum_lit(ty, n, unit, es)
 
     def struct_lit(self, ty, es):
+        es = [(f, self.maybe_untyped(e)) for f, e in es]
         shown = list(es)
         self.rng.shuffle(shown)      # textual order is free, the value lists fields by name
         text = f"{ty['name']} {{ " + ", ".join(f"{f}: {e.text}" for f, e in shown) + " }"
         return E(text, ["struct", ty["name"], [[f, e.ast] for f, e in es]])
 
     def enum_lit(self, ty, variant, unit, es):
+        es = [self.maybe_untyped(e) for e in es]
         if unit:
             return E(f"{ty['name']}::{variant}", ["enum", ty["name"], variant, True, []])
         return E(f"{ty['name']}::{variant}(" + ", ".join(e.text for e in es) + ")",
@@ -221,6 +250,12 @@ class ProgGen:
         return None
 
     def binop(self, op, opty, a, b):
+        lit_a = isinstance(a.ast, list) and a.ast[0] == "int"
+        lit_b = isinstance(b.ast, list) and b.ast[0] == "int"
+        if op in ("<<", ">>"):
+            b = self.maybe_untyped(b)                 # the amount is always a u8
+        elif lit_a != lit_b:
+            a, b = (self.maybe_untyped(a), b) if lit_a else (a, self.maybe_untyped(b))
         lvl = PREC[op]
         if op in ("==", "!=", "<", ">", "<=", ">="):
             ta, tb = a.at(lvl + 1, self.rng), b.at(lvl + 1, self.rng)
@@ -334,7 +369,7 @@ class ProgGen:
 
     def e_call(self, ty, d, pure):
         h = self.rng.choice([h for h in self.helpers if h["ret"] == ty])
-        args = [self.expr(t, d - 1, pure) for _, t in h["params"]]
+        args = [self.maybe_untyped(self.expr(t, d - 1, pure)) for _, t in h["params"]]
         h["used"] = True
         return E(f"{h['name']}(" + ", ".join(a.text for a in args) + ")", ["call", h["name"], [a.ast for a in args]])
 
@@ -514,6 +549,8 @@ class ProgGen:
         e = self.expr(ty, d, pure)
         ptext, past, binds = self.irrefutable(ty)
         ann = f": {T.ty_str(ty)}" if self.rng.random() < 0.3 else ""
+        if ann:
+            e = self.maybe_untyped(e, 0.7)
         for x, t in binds:
             self.scope.append({"name": x, "ty": t, "mut": False})
         return (f"let {ptext}{ann} = {e.text};", ["let", past, e.ast])
@@ -523,6 +560,13 @@ class ProgGen:
         e = self.expr(ty, d, pure)
         x = self.fresh("m")
         ann = f": {T.ty_str(ty)}" if self.rng.random() < 0.3 else ""
+        if ann or ty == INT("i32"):
+            e = self.maybe_untyped(e, 0.7)            # without annotation an untyped number is an i32
+        elif "untyped" in self.features and self.rng.random() < 0.6:
+            t2 = untyped_i32_text(e.ast)              # `let mut a = [7, 8];` / `[7; 3]` / `(7, true)`: i32 elements
+            if t2 is not None and t2 != e.text:
+                self.note("untyped-aggregate")
+                e = E(t2, e.ast)
         self.scope.append({"name": x, "ty": ty, "mut": True})
         return (f"let mut {x}{ann} = {e.text};", ["letmut", x, e.ast])
 
@@ -573,6 +617,7 @@ class ProgGen:
             for st in path:
                 cur = {"i": lambda c, s: ["index", c, s[1]], "t": lambda c, s: ["tget", c, s[1]], "f": lambda c, s: ["field", c, s[1]]}[st[0]](cur, st)
             return (f"{text} {op}= {e.text};", ["assign", v["name"], path, ["bin", op, ty, cur, e.ast]])
+        e = self.maybe_untyped(e)
         return (f"{text} = {e.text};", ["assign", v["name"], path, e.ast])
 
     def stmt_block(self, d, n=None):
